@@ -475,7 +475,7 @@ def main():
     felica_case(True, {}, [('prot', key0, False, 1, bytes(range(16))), ('auth', key0, bytes(16))], None, 'corpus')
     felica_case(True, {}, [('prot', bytearray(key0), False, 0, bytes(range(16))), ('auth', bytearray(key0), bytes(16))], None, 'corpus')
 
-    nbase = 2 if quick else 4
+    nbase = 2 if quick else 3
     for lites in (False, True):
         for bi in range(nbase):
             key = rbytes(16)
@@ -598,7 +598,7 @@ def main():
         return res
 
     for cfg in (16, 37, 41, 131, 227):
-        for bi in range(2 if quick else 12):
+        for bi in range(2 if quick else 8):
             secret = rbytes(6)
             init = {cfg + 2: secret[0:4], cfg + 3: secret[4:6] + bytes(2)}
             ops = [('auth', secret + rbytes(rng.choice([0, 2])))]
